@@ -12,10 +12,10 @@ DepthA == <<2, 3, 4, 5>>
 MultQ == <<100, 110, 120, 150>>
 WS1 == {1}
 WS2 == {1, 2}
-WSM == [k \in {1, 2} |-> IF k = 1 THEN 2 ELSE 1]
-WSN == [k \in {1, 2} |-> IF k = 1 THEN 1 ELSE 2]
-WSW == [k \in {1, 2} |-> 1]
-WSB == [k \in {1, 2} |-> 0]
+WSM(k) == IF k = 1 THEN 2 ELSE 1
+WSN(k) == IF k = 1 THEN 1 ELSE 2
+WSW(k) == 1
+WSB(k) == 0
 ProfQ == {<<1, 0, "plain", 0>>, <<2, 1, "plain", 0>>, <<3, 0, "plain", 0>>, <<1, 0, "contract", 7>>}
 ProfA == {<<1, 0, "plain", 0>>, <<1, 1, "plain", 0>>, <<2, 1, "plain", 0>>, <<3, 0, "plain", 0>>, <<3, 2, "plain", 0>>,
           <<1, 0, "contract", 7>>, <<1, 1, "delegate", 7>>, <<3, 0, "contract", 7>>, <<1, 0, "contract", 8>>, <<1, 0, "malformed", 0>>}
